@@ -247,3 +247,69 @@ package otto
 //@   ensures isGoNumber(left) && isGoNumber(right) && (isNaN(numOf(left)) || isNaN(numOf(right))) ==> result == lessThanUndefined
 //@   ensures isGoNumber(left) && isGoNumber(right) && !(isNaN(numOf(left)) || isNaN(numOf(right))) ==> (result == lessThanTrue <==> numOf(left) < numOf(right)) && (result == lessThanFalse <==> !(numOf(left) < numOf(right)))
 //@   ensures result == lessThanTrue || result == lessThanFalse || result == lessThanUndefined
+
+// ---------------------------------------------------------------------------
+// argument lists of native functions
+// ---------------------------------------------------------------------------
+
+// Every slot of an argument list is a well-formed language value or the empty marker.
+//@ spec argsOK(a []Value) bool = forall i int :: 0 <= i && i < len(a) ==> wfValue(a[i]) && a[i].kind <= valueEmpty
+//@ spec slotOK(a []Value, i int) bool = 0 <= i && i < len(a) ==> wfValue(a[i]) && a[i].kind <= valueEmpty
+//@ spec argOK(call FunctionCall, i int) bool = slotOK(call.ArgumentList, i)
+//@ spec wfCall(call FunctionCall) bool = jsValue(call.This)
+// argOf: the value FunctionCall.Argument(i) denotes (undefined when absent or empty)
+//@ spec argOf(call FunctionCall, i int) Value = ite(0 <= i && i < len(call.ArgumentList) && call.ArgumentList[i].kind != valueEmpty, call.ArgumentList[i], Value{})
+
+//@ func getValueOfArrayIndex
+//@   props C08
+//@   requires slotOK(array, index)
+//@   ensures jsValue(result0)
+//@   ensures 0 <= index && index < len(array) && array[index].kind != valueEmpty ==> result0 == array[index] && result1
+//@   ensures !(0 <= index && index < len(array) && array[index].kind != valueEmpty) ==> result0 == Value{} && !result1
+//@   pure
+//@   nothrow
+//@ func valueOfArrayIndex
+//@   inline
+//@ func (FunctionCall).Argument
+//@   inline
+
+// ---------------------------------------------------------------------------
+// builtin_math.go, builtin.go (C13)
+// ---------------------------------------------------------------------------
+
+// ES5 15.8.2.15 Math.round: the integer closest to x, ties towards +Infinity; -0 for
+// -0.5 <= x < 0 and for -0; NaN and infinities unchanged.
+//@ spec es5Round(x float64) float64 = ite(isNaN(x) || isInf(x), x,
+//@+   ite(ite(x - floor(x) >= 0.5, ceil(x), floor(x)) == 0.0, ite(signbit(x), fneg(0.0), 0.0), ite(x - floor(x) >= 0.5, ceil(x), floor(x))))
+//@ sanity[C13] sameFloat(es5Round(0.5), 1.0) && sameFloat(es5Round(-0.5), fneg(0.0)) && sameFloat(es5Round(2.5), 3.0) && sameFloat(es5Round(-2.5), -2.0)
+//@ sanity[C13] sameFloat(es5Round(0.49999999999999994), 0.0) && sameFloat(es5Round(-0.2), fneg(0.0)) && sameFloat(es5Round(4503599627370497.0), 4503599627370497.0)
+
+//@ func builtinMathRound
+//@   props C13
+//@   requires wfCall(call) && argOK(call, 0)
+//@   stable call.ArgumentList
+//@   ensures isGoNumber(argOf(call, 0)) ==> result.kind == valueNumber && is(result.value, float64) && sameFloat(result.value.(float64), es5Round(numOf(argOf(call, 0))))
+
+// ES5 B.2.1: escape leaves exactly A-Z a-z 0-9 @ * _ + - . / unescaped.
+//@ func builtinShouldEscape
+//@   props C13
+//@   ensures result <==> !((65 <= chr && chr <= 90) || (97 <= chr && chr <= 122) || (48 <= chr && chr <= 57) || chr == 64 || chr == 42 || chr == 95 || chr == 43 || chr == 45 || chr == 46 || chr == 47)
+//@   nothrow
+
+// ES5 15.8.2.13 rows that do not depend on the accuracy of the library.
+//@ func builtinMathPow
+//@   props C13
+//@   requires wfCall(call) && argOK(call, 0) && argOK(call, 1)
+//@   stable call.ArgumentList
+//@   ensures isGoNumber(argOf(call, 0)) && isGoNumber(argOf(call, 1)) ==> result.kind == valueNumber && is(result.value, float64)
+//@   ensures isGoNumber(argOf(call, 0)) && isGoNumber(argOf(call, 1)) && isNaN(numOf(argOf(call, 1))) ==> isNaN(result.value.(float64))
+//@   ensures isGoNumber(argOf(call, 0)) && isGoNumber(argOf(call, 1)) && numOf(argOf(call, 1)) == 0.0 ==> result.value.(float64) == 1.0
+//@   ensures isGoNumber(argOf(call, 0)) && isGoNumber(argOf(call, 1)) && isNaN(numOf(argOf(call, 0))) && numOf(argOf(call, 1)) != 0.0 ==> isNaN(result.value.(float64))
+//@   ensures isGoNumber(argOf(call, 0)) && isGoNumber(argOf(call, 1)) && fabs(numOf(argOf(call, 0))) == 1.0 && isInf(numOf(argOf(call, 1))) ==> isNaN(result.value.(float64))
+
+// ES5 15.8.2.5: atan2 is NaN if either argument is NaN.
+//@ func builtinMathAtan2
+//@   props C13
+//@   requires wfCall(call) && argOK(call, 0) && argOK(call, 1)
+//@   stable call.ArgumentList
+//@   ensures isGoNumber(argOf(call, 0)) && isGoNumber(argOf(call, 1)) && (isNaN(numOf(argOf(call, 0))) || isNaN(numOf(argOf(call, 1)))) ==> isNaN(result.value.(float64)) && result.kind == valueNumber
